@@ -248,9 +248,6 @@ func checkC14(c genCase) pbt.Result {
 		if pbt.Known("F44") && !pbt.Replaying() && strings.Contains(out, "case-insensitive import collision") && strings.Contains(strings.Join(c.Args, " "), "--split-internal") {
 			return pbt.Result{Excluded: "F44"} // constructors that differ only by letter case, one package each
 		}
-		if pbt.Known("F41") && !pbt.Replaying() && strings.Contains(out, "imported and not used") && strings.Contains(strings.Join(c.Args, " "), "--split-internal") && strings.Contains(strings.Join(c.Args, " "), "--generateByteVersions=*") {
-			return pbt.Result{Excluded: "F41"} // dictionary of dictionaries under --split-internal --generateByteVersions=*
-		}
 		return pbt.Fail("tl2gen accepted the schema (edit %s, options %v) but the generated code does not build:\n%s", c.Edit, c.Args, tailStr(out, 12))
 	}
 	_, files := treeHash(outdir)
